@@ -36,11 +36,12 @@ Lemma instantiate_exc t args :
 Proof.
   intros H. destruct t as [o| |].
   - destruct (exc_class_kind _ H) as [c Hc]. unfold instantiate, pycall. rewrite Hc.
-    destruct c as [|n| |]; cbn.
+    destruct c as [|n| | |tb]; cbn.
     + rewrite H. split; [reflexivity|left; eauto].
     + destruct (Nat.eqb (length args) n); cbn; rewrite H; cbn; (split; [reflexivity|left; eauto]).
     + rewrite H. cbn. split; [reflexivity|left; eauto].
     + rewrite H. split; [reflexivity|]. right. exists o. auto.
+    + destruct (assoc_nat (length args) tb); cbn; rewrite H; cbn; (split; [reflexivity|left; eauto]).
   - cbn. split; [reflexivity|left; eauto].
   - cbn. split; [reflexivity|left; eauto].
 Qed.
@@ -154,7 +155,8 @@ Proof.
     { destruct (resolve_some _ _ _ _ _ Hr) as [_ [(sm & -> & -> & _)|(o' & -> & -> & Hre)]].
       - cbn. intros [H|[H|[]]]; discriminate.
       - cbn [app]. unfold instantiate, pycall.
-        destruct (okind o') as [[|n| |]| | | |[]|]; cbn; try destruct (Nat.eqb (length args) n); cbn;
+        destruct (okind o') as [[|n| | |tb]| | | |[]|]; cbn; try destruct (Nat.eqb (length args) n);
+          try destruct (assoc_nat (length args) tb); cbn;
           intuition (try discriminate); match goal with H : Instantiate _ = Instantiate _ |- _ => inversion H; subst; auto end. }
     assert (H0 : In (Instantiate (TEnv o)) e0 -> reachable e o) by (intros; apply Ht, in_or_app; auto).
     destruct (gate_rejects t); [exact H0|].
